@@ -9,7 +9,7 @@
     statements for it carry [not_pinned] and the excluded case is refuted by a witness (open finding).
     [tag_ok] is the domain of the statement (decidable, the same check the extracted oracle performs). *)
 From Coq Require Import ZArith Bool String List.
-Require NixV.Gen.GenAccess NixV.Access.AccessBridgeModels NixV.Gen.GenPairs NixV.Axis.PairBridge NixV.Axis.RangeModel.
+Require NixV.Gen.GenAccess NixV.Access.AccessBridgeModels NixV.Gen.GenPairs NixV.Axis.PairBridge NixV.Axis.RangeModel NixV.Gen.GenScale NixV.Access.ScaleBridge.
 Require Import NixV.Base.Prelude NixV.Base.F64 NixV.Gen.GenDimensions.
 Require Import NixV.Access.Retrieval NixV.Access.RetrievalSpec NixV.Access.RetrievalAxis NixV.Access.RetrievalDomain
                NixV.Access.RetrievalAssemble NixV.Access.RetrievalTag NixV.Access.RetrievalOracle
@@ -177,6 +177,14 @@ Theorem C05_pair_conversion_is_generated : forall d m s e,
   end.
 Proof. exact NixV.Axis.PairBridge.retrieval_pair_is_generated. Qed.
 Print Assumptions C05_pair_conversion_is_generated.
+
+(** scalePositions of the model is the code regenerated from src/util/dataAccess.cpp on this run *)
+Theorem C05_scalePositions_is_generated : forall starts ends units dun out_s out_e,
+  (Nat.min (List.length starts) (List.length ends) < 200)%nat ->
+  NixV.Gen.GenScale.scalePositions_gen starts ends units dun out_s out_e Retrieval.getSIScaling
+  = Retrieval.scalePositions starts ends units dun.
+Proof. exact NixV.Access.ScaleBridge.scalePositions_generated. Qed.
+Print Assumptions C05_scalePositions_is_generated.
 
 (** OPEN OBLIGATION while the defects of DESIGN section 9 items 4, 19, 28, 31 are in the tree: the behaviour the
     extracted driver replays against the library is the repaired one.  Holds once the fix: commits have landed and
